@@ -353,6 +353,40 @@ func (p *pkgInfo) c09offAfterSeek() bool {
 	return assign > call && assign > ret
 }
 
+// c10readToEOFGuard returns the constant N of the case `n == N && err == nil`
+// in readToEOF (bgzf/cache.go): the fill level at which the extra one-byte
+// read decides between "exactly full" and io.ErrShortBuffer.
+func (p *pkgInfo) c10readToEOFGuard() string {
+	fd := p.funcDecl("", "readToEOF")
+	val := ""
+	ast.Inspect(fd.Body, func(n ast.Node) bool {
+		cc, ok := n.(*ast.CaseClause)
+		if !ok {
+			return true
+		}
+		for _, e := range cc.List {
+			be, ok := e.(*ast.BinaryExpr)
+			if !ok || be.Op != token.LAND {
+				continue
+			}
+			cmp, ok := be.X.(*ast.BinaryExpr)
+			if !ok || cmp.Op != token.EQL || lastSel(cmp.X) != "n" {
+				continue
+			}
+			if tv, ok := p.info.Types[cmp.Y]; ok && tv.Value != nil {
+				if z, ok := constZ(tv.Value); ok {
+					val = z
+				}
+			}
+		}
+		return true
+	})
+	if val == "" {
+		fatalf("%s: readToEOF no longer has a case `n == <const> && err == nil`", p.fset.Position(fd.Pos()))
+	}
+	return val
+}
+
 // c10readerStrict reports whether readMember treats an exhausted or empty
 // member as an error: no `return io.EOF` in readMember, and io.ErrUnexpectedEOF
 // is produced for a short member.
@@ -381,6 +415,7 @@ func init() {
 	emitters["31_bgzf_writer_skeleton"] = func(w *bytes.Buffer) {
 		bg := load("bgzf")
 		fmt.Fprintf(w, "(* countReader.seek sets its offset only after a successful underlying Seek *)\nDefinition bgzf_countreader_off_after_seek : bool := %v.\n", bg.c09offAfterSeek())
+		fmt.Fprintf(w, "(* readToEOF: fill level at which the extra read checks for more data (must be the block buffer size) *)\nDefinition bgzf_readToEOF_guard : Z := %s.\n", bg.c10readToEOFGuard())
 		fmt.Fprintf(w, "(* decompressor.readMember never reports a clean io.EOF for a member that has started *)\nDefinition bgzf_reader_strict : bool := %v.\n", bg.c10readerStrict())
 		fmt.Fprintf(w, "(* decompressor.nextBlockAt invalidates its block when readMember fails *)\nDefinition bgzf_reader_invalidates : bool := %v.\n", bg.c09readerInvalidates())
 		bg.c09emit(w, "bgzf_wskel_emitter", "", "NewWriterLevel", true)
